@@ -422,7 +422,7 @@ func (c20) Run(u fw.Unit) fw.Result {
 func (c20) Describe(tier string) fw.Description {
 	return fw.Description{
 		Level: "model_checking",
-		Rule: "(a) immutability: 27 query kinds (incl. analytic functions over window results, DISTINCT / ORDER BY / HAVING over several batches) (unnest over scalars and over objects, projection, *, SELECT-analytic, WHERE-analytic with and without OVER, OVER, changed_cols, JOIN, function-expression group key, counting, tumbling, session, global window, MATCH_RECOGNIZE, CASE) x {Emit, EmitSync} x rows with nested maps and slices: a deep snapshot of every caller map before the call must equal it after quiescence, and every batch handed to a sink must still read the same at the end; (b) independence: 14 instance pairs (same SQL; nth_value(v,1) vs (v,2); percentile(v,0) vs (v,1); the same expression text over differently typed rows; analytic; LIKE; CASE vs string concatenation) x all input sequences of length 1..L per instance x ALL interleavings of the two inputs at operation granularity in one process (instances created up front or each at its first input; one worker process per pair, baselines taken first and again at the end), compared with each instance alone after VerifResetGlobals(); non-trivial = some output exists",
+		Rule: "(a) immutability: " + fmt.Sprint(len(c20Kinds())) + " query kinds (incl. analytic functions over window results, aggregates over expression arguments for every window kind, DISTINCT / ORDER BY / HAVING over several batches, HAVING over unselected aggregates with and without ORDER BY / LIMIT) (unnest over scalars and over objects, projection, *, SELECT-analytic, WHERE-analytic with and without OVER, OVER, changed_cols, JOIN, function-expression group key, counting, tumbling, session, global window, MATCH_RECOGNIZE, CASE) x {Emit, EmitSync} x rows with nested maps and slices: a deep snapshot of every caller map before the call must equal it after quiescence, and every batch handed to a sink must still read the same at the end; (a2) every registered scalar, aggregate and analytic function called over the caller's own slices and maps; (b) independence: " + fmt.Sprint(len(c20Pairs())) + " instance pairs (same SQL; unnamed vs named overflow strategies; the same TRIGGER WHEN under different SELECT lists; MATCH_RECOGNIZE next to failing rows; nth_value(v,1) vs (v,2); percentile(v,0) vs (v,1); the same expression text over differently typed rows; analytic; LIKE; CASE vs string concatenation) x all input sequences of length 1..L per instance x ALL interleavings of the two inputs at operation granularity in one process (instances created up front or each at its first input; one worker process per pair, baselines taken first and again at the end), compared with each instance alone after VerifResetGlobals(); non-trivial = some output exists",
 		Bounds:      map[string]any{"max_len_per_instance": map[string]int{"quick": 2, "thorough": 3}},
 		Assumptions: []string{"interleaving at Emit granularity under the eager deterministic schedule; finer interleavings of two instances' goroutines are not explored (they share only the function registry and the expression caches, whose internal synchronisation is in the quiet packages)"},
 	}
